@@ -73,6 +73,12 @@ def cases(ctx):
                 yield {"kind": "request", "type": tp, "number": rng.choice([1, 2, 3]), "rotations_local": list(rng.choice(triples)),
                        "rotations_remote": list(rng.choice(triples)) if tp == "M" else None, "max_time": rng.choice([0, 5]),
                        "time_unit": rng.choice(["MICRO_SECONDS", "SECONDS"]), "socket": rng.choice([0, 2]), "remote": "bob"}
+    for number in (1, 2, 3):
+        for extra in ({}, {"max_time": 5, "time_unit": "SECONDS"}, {"max_time": 7, "time_unit": "MILLI_SECONDS"}, {"max_time": 1},
+                      {"max_time": 3, "time_unit": "MICRO_SECONDS"}):
+            if mine():
+                yield dict({"kind": "request", "type": "K", "number": number, "socket": rng.choice([0, 1]), "remote": rng.choice(["bob", "charlie"]),
+                            "with_info": True}, **extra)
     for number in (1, 2):
         for extra in ({}, {"max_time": 5, "time_unit": "SECONDS"}, {"max_time": 7, "time_unit": "MILLI_SECONDS"}, {"max_time": 1}):
             for fid in (50, 80, 95):
@@ -414,6 +420,8 @@ def _request(ctx, case):
                 from netqasm.sdk.build_epr import EPRType
                 ctx.count("requests_via_create_wrapper")
                 es.create(number=number, tp=EPRType[tp], **kw)
+            elif tp == "K" and case.get("with_info"):
+                es.create_keep_with_info(number, **kw)      # the same request through the entry point that also returns the info objects
             elif tp == "K":
                 es.create_keep(number, **kw)
             elif tp == "M":
